@@ -39,6 +39,8 @@ Cases ==
   \cup { [op |-> "params", n |-> n, cap |-> cap, expect |-> GuardParams(n, cap)] : n \in {1, 8, 64, 65, 128}, cap \in {64, 128, 129} }
   \cup { [op |-> "stmt", m |-> m, np |-> np, seed |-> sd, cap |-> cap, expect |-> GuardStmt(m, np, sd, cap)] :
            m \in 0..17, np \in 0..18, sd \in BOOLEAN, cap \in {1, 2, 4, 8, 16, 32} }
+  \cup { [op |-> "stmt_verify", m |-> mm, np |-> np, cap |-> cap, expect |-> IF GuardStmt(mm, np, FALSE, cap) = "ok" THEN "ok" ELSE "err"] :
+           mm \in {1, 2, 4}, np \in 0..7, cap \in {4, 8} }
   \cup { [op |-> "wit", counts |-> cs, expect |-> GuardWit(cs)] : cs \in UNION { [1..k -> 0..8] : k \in 0..(IF Quick THEN 3 ELSE 4) } }
   \cup { [op |-> "mask", t |-> t, len |-> len, expect |-> GuardMask(t, len)] : t \in 1..6, len \in 0..8 }
   \cup { [op |-> "commit", t |-> t, b |-> b, expect |-> GuardCommit(t, b)] : t \in 1..6, b \in 0..8 }
